@@ -880,6 +880,60 @@ func ruleProcPhases(c *Ctx) []Obligation {
 			})
 		})
 	}
+	// or: the applier walks a list that a helper made with one entry per name (if !seen[name] { seen[name] = true;
+	// list = append(list, m) }) — the test-and-set sits around the append instead of around the call
+	if !okk {
+		for _, d := range devCalls {
+			if len(d.Common().Args) == 0 {
+				continue
+			}
+			for _, h := range c.Funcs {
+				if h.Blocks == nil || h == proc || !c.isRepoFn(h) || h.Signature.Results().Len() != 1 {
+					continue
+				}
+				if _, isSl := h.Signature.Results().At(0).Type().Underlying().(*types.Slice); !isSl {
+					continue
+				}
+				fromH := derivesFrom(d.Common().Args[0], func(x ssa.Value) bool {
+					call, isC := x.(*ssa.Call)
+					return isC && call.Call.StaticCallee() == h
+				})
+				if !fromH {
+					// ToEntry(m) with m from the list
+					if call, isC := d.Common().Args[0].(*ssa.Call); isC && len(call.Call.Args) > 0 {
+						fromH = derivesFrom(call.Call.Args[0], func(x ssa.Value) bool {
+							c2, isC2 := x.(*ssa.Call)
+							return isC2 && c2.Call.StaticCallee() == h
+						})
+					}
+				}
+				if !fromH {
+					continue
+				}
+				eachInstr(h, func(in ssa.Instruction) {
+					mu, okm := in.(*ssa.MapUpdate)
+					if !okm || !isSetInsert(mu) {
+						return
+					}
+					eachInstr(h, func(in2 ssa.Instruction) {
+						ap, isAp := in2.(*ssa.Call)
+						if !isAp {
+							return
+						}
+						if bi, isB := ap.Call.Value.(*ssa.Builtin); !isB || bi.Name() != "append" {
+							return
+						}
+						eachInstr(h, func(in3 ssa.Instruction) {
+							l, okl := in3.(*ssa.Lookup)
+							if okl && l.X == mu.Map && sameKey(l.Index, mu.Key) && lookupAbsentGuards(l, ap) && (dominates(ap, mu) || dominates(mu, ap)) {
+								okk = true
+							}
+						})
+					})
+				})
+			}
+		}
+	}
 	if okk {
 		obs = append(obs, ok(R, con, c.InstrPos(devs[0]), "if !seen[name] { apply; seen[name] = true }"))
 	} else {
